@@ -136,6 +136,10 @@ func matchChunk(chunk, s string) (rest string, ok bool) {
 }
 
 func (p Pattern) MarshalJSON() ([]byte, error) {
+	if len(p.comps) == 0 {
+		// UnmarshalJSON rejects an empty array; the empty pattern is the empty literal
+		return []byte(`[{"Literal":""}]`), nil
+	}
 	var buf bytes.Buffer
 	buf.WriteRune('[')
 	for i, comp := range p.comps {
